@@ -874,6 +874,11 @@ pub fn added_migration(rep: &mut Report, prefix: &str) {
             od.kind = PK::Canonical { serialization: PS::Migrate(m) };
             let mut nd = PropertyDescriptor::new(new, DT::Value(VariantType::Content));
             nd.kind = PK::Canonical { serialization: PS::Serializes };
+            // ... and an alias of the LEGACY property (the spelling older files used), as patches/ keep them
+            let alias_name: &'static str = if old == "VerifOldId" { "verifOldIdAlias" } else { "verifZOldIdAlias" };
+            let mut ad = PropertyDescriptor::new(alias_name, DT::Value(VariantType::ContentId));
+            ad.kind = PK::Alias { alias_for: old.into() };
+            folder.properties.insert(alias_name.into(), ad);
             folder.properties.insert(old.into(), od);
             folder.properties.insert(new.into(), nd);
             folder.default_properties.insert(new.into(), Variant::Content(Content::none()));
@@ -882,12 +887,18 @@ pub fn added_migration(rep: &mut Report, prefix: &str) {
     let db2: &'static rbx_reflection::ReflectionDatabase<'static> = Box::leak(Box::new(db2));
     let no = |_: Ref| J::Null;
     for (old, new) in pairs {
-        for case in ["legacy-only", "explicit-first", "legacy-first"] {
+        for case in ["legacy-only", "explicit-first", "legacy-first", "legacy-alias-only", "legacy-alias-and-explicit"] {
+            let alias_name = if old == "VerifOldId" { "verifOldIdAlias" } else { "verifZOldIdAlias" };
             let legacy = Variant::ContentId("rbxassetid://1".into());
             let explicit = Variant::Content(Content::from_uri("rbxassetid://2"));
             let mut b = InstanceBuilder::new("Folder").with_name("x");
             match case {
                 "legacy-only" => b.add_property(old, legacy.clone()),
+                "legacy-alias-only" => b.add_property(alias_name, legacy.clone()),
+                "legacy-alias-and-explicit" => {
+                    b.add_property(alias_name, legacy.clone());
+                    b.add_property(new, explicit.clone());
+                }
                 "explicit-first" => {
                     b.add_property(new, explicit.clone());
                     b.add_property(old, legacy.clone());
@@ -897,7 +908,7 @@ pub fn added_migration(rep: &mut Report, prefix: &str) {
                     b.add_property(new, explicit.clone());
                 }
             }
-            let want = canon::value(&if case == "legacy-only" { Variant::Content(Content::from_uri("rbxassetid://1")) } else { explicit.clone() }, &no);
+            let want = canon::value(&if case == "legacy-only" || case == "legacy-alias-only" { Variant::Content(Content::from_uri("rbxassetid://1")) } else { explicit.clone() }, &no);
             // a sibling that carries nothing, and one that carries the other combination, so that columns exist either way
             let dom = WeakDom::new(InstanceBuilder::new("DataModel").with_child(b).with_child(InstanceBuilder::new("Folder").with_name("bare")));
             let roots = dom.root().children().to_vec();
@@ -915,7 +926,7 @@ pub fn added_migration(rep: &mut Report, prefix: &str) {
                         rbx_xml::from_reader(&v[..], rbx_xml::DecodeOptions::new().reflection_database(db2)).map_err(|e| format!("read: {}", e))?
                     };
                     let k = d.root().children().first().and_then(|r| d.get_by_ref(*r)).ok_or("no instance")?;
-                    Ok((k.properties.get(&rbx_dom_weak::ustr(new)).map(|v| canon::value(v, &no)), k.properties.contains_key(&rbx_dom_weak::ustr(old))))
+                    Ok((k.properties.get(&rbx_dom_weak::ustr(new)).map(|v| canon::value(v, &no)), k.properties.contains_key(&rbx_dom_weak::ustr(old)) || k.properties.contains_key(&rbx_dom_weak::ustr(alias_name))))
                 });
                 let bad = match &res {
                     Ok(Ok((got, legacy_left))) => {
